@@ -305,4 +305,30 @@ theorem verifyBatch_iff (legacy : Bool) (msgs sigs vks : List (List UInt8)) :
   · have : (msgs.length != sigs.length) = true := bne_iff_ne.2 h1
     simp [this, h1]
 
+/-! ## Single verification versus one batch equation -/
+
+/-- **Link between single and batch verification.**  Ordinary (non-strict) verification accepts iff the
+batch equation of the entry holds **and** the `R` bytes are the canonical encoding of a point.  (Single
+verification compares `R` as bytes; the batch equation uses the decoded point, so it cannot see a
+non-canonical encoding.) -/
+theorem verify_iff_batchItem (legacy : Bool) (msg sig vk : List UInt8) :
+    verifyCoreWith Ops.spec legacy false [] vk msg sig = true ↔
+      batchItemWith Ops.spec legacy msg sig vk = some true ∧ IsCanonicalEnc (sig.take 32) := by
+  rw [verifyCore_iff, batchItem_eq_some_true_iff]
+  simp only [List.nil_append, Bool.false_eq_true, false_imp_iff, true_and]
+  constructor
+  · rintro ⟨A, s, hA, hs, he⟩
+    refine ⟨⟨A, s, s • Bpt - hashToScalar (List.take 32 sig ++ vk ++ msg) • A, hA, hs, ?_, ?_⟩,
+      ⟨_, he⟩⟩
+    · rw [← he, decodeEd_encodeEd, he]
+    · abel
+  · rintro ⟨⟨A, s, R, hA, hs, hR, he⟩, ⟨Q, hQ⟩⟩
+    refine ⟨A, s, hA, hs, ?_⟩
+    rw [← hQ, decodeEd_encodeEd] at hR
+    cases hR
+    rw [← hQ]
+    congr 1
+    rw [sub_right_comm, sub_eq_zero] at he
+    exact he
+
 end Dalek.Eds
